@@ -37,7 +37,9 @@ def main():
             if c['mode'] == 'spectrum':
                 arr = arr.reshape(shape)
                 fs = dadi.Spectrum(arr, mask_corners=c.get('mask_corners', True), pop_ids=c.get('pop_ids'))
-                fs.extrap_x = x
+                # what the result itself carries: the spacing (default), a DIFFERENT value (an explicit extrap_x_l must win), or None
+                ax = c.get('attr_x', 'same')
+                fs.extrap_x = x if ax == 'same' else (None if ax == 'none' else 0.5 / pts + 0.01)
                 return fs
             return arr
         try:
